@@ -155,12 +155,15 @@ fn line_bounds(src: &str, off: usize) -> (usize, usize) {
 /// Rule-violating statements (one per documented rule that can be broken by inserting a statement).
 /// `{I}` = indentation. Every base function starts with `imm_x = 0` and `opt_v = Some(1)`; Pt, Color, helper_ok,
 /// takes_int are declared by the base program.
-pub const RULES: [(&str, &str); 18] = [
+pub const RULES: [(&str, &str); 21] = [
     ("ctor-no-arguments", "{I}zz_tmp = Pt()\n"),
     ("ctor-wrong-field-type", "{I}zz_tmp = Pt(x=1, y=\"two\")\n"),
     ("unknown-name", "{I}zz_tmp = zz_unknown_name + 1\n"),
     ("unknown-name-in-fstring", "{I}zz_tmp = f\"v={zz_unknown_name + 1}\"\n"),
     ("pass-wrong-type", "{I}zz_tmp = takes_int(\"text\")\n"),
+    ("pass-too-few", "{I}zz_tmp = takes_int()\n"),
+    ("pass-too-many", "{I}zz_tmp = takes_int(1, 2)\n"),
+    ("pass-unknown-keyword", "{I}zz_tmp = takes_int(v=1, zz=2)\n"),
     ("assign-wrong-type", "{I}zz_tmp: int = \"text\"\n"),
     ("reassign-immutable", "{I}imm_x = 5\n"),
     ("compound-immutable", "{I}imm_x += 1\n"),
@@ -422,19 +425,26 @@ pub fn run(out: &mut Out, tier: &str, seed: u64, _scratch: &str) {
         };
         out.case(&format!("c03 match {} {} {}", variants.join(","), (subject == 1) as u8, enc.join(",")), &verdict);
     }
-    // (e) call arguments: signatures of 1-4 parameters (primitive, collection, model, class, trait-typed), function
-    // and method calls, positional and keyword arguments, 0-2 arguments of a type the parameter does not accept
+    // (e) call arguments: signatures of 1-4 parameters (primitive, collection, model, class, trait-typed; trailing
+    // ones may have defaults), function and method calls, positional and keyword arguments, 0-2 arguments of a type
+    // the parameter does not accept, and arity edits (arguments dropped, a surplus positional, an unknown keyword)
     const TYS: [(&str, &str); 9] = [("int", "7"), ("str", "\"s\""), ("bool", "True"), ("float", "1.5"), ("List[int]", "[1, 2]"),
         ("Pt", "Pt(x=1, y=2)"), ("Box", "Box(w=1, h=2)"), ("Cat", "Cat(n=1)"), ("Option[int]", "Some(3)")];
     const PARAM_TYS: [&str; 10] = ["int", "str", "bool", "float", "List[int]", "Pt", "Box", "Cat", "Option[int]", "Shape"];
     let adopts = |a: &str, e: &str| a == e || (e == "Shape" && (a == "Box" || a == "Sq"));
-    let n_call = if tier == "thorough" { 1500 } else { 300 };
+    let n_call = if tier == "thorough" { 2000 } else { 400 };
     let mut n_call_wrong = 0u64;
+    let mut n_call_arity = 0u64;
     for ci in 0..n_call {
         let np = 1 + rng.below(4) as usize;
         let params: Vec<(String, &str)> = (0..np).map(|i| (format!("p{i}"), PARAM_TYS[rng.below(PARAM_TYS.len() as u64) as usize])).collect();
+        // defaults on a suffix of the parameters (never on a trait-typed one: it has no literal)
+        let mut has_default = vec![false; np];
+        for i in (0..np).rev() {
+            if params[i].1 != "Shape" && rng.chance(1, 4) { has_default[i] = true; } else { break; }
+        }
         // argument types: fitting, then up to two positions replaced by a type the parameter does not accept
-        let mut arg_tys: Vec<(&str, &str)> = params.iter().map(|(_, t)| if *t == "Shape" { if rng.chance(1, 2) { ("Box", "Box(w=1, h=2)") } else { ("Sq", "Sq(s=2)") } } else { *TYS.iter().find(|(n, _)| n == t).unwrap() }).collect();
+        let mut arg_tys: Vec<(&str, &str)> = params.iter().map(|(_, t)| if *t == "Shape" { if rng.chance(1, 2) { ("Box", "Box(w=1, h=2)") } else { ("Sq", "Sq(w=1, h=1, s=2)") } } else { *TYS.iter().find(|(n, _)| n == t).unwrap() }).collect();
         let n_wrong = [0usize, 1, 1, 1, 2][rng.below(5) as usize].min(np);
         let mut wrong_at: Vec<usize> = Vec::new();
         while wrong_at.len() < n_wrong {
@@ -451,68 +461,207 @@ pub fn run(out: &mut Out, tier: &str, seed: u64, _scratch: &str) {
             let tail = &mut order[np - nk..];
             for i in (1..tail.len()).rev() { let j = rng.below(i as u64 + 1) as usize; tail.swap(i, j); }
         }
+        // written arguments: (parameter index or usize::MAX for an argument no parameter takes, keyword?, type, text)
+        let mut written: Vec<(usize, Option<String>, &str, String)> = order.iter().enumerate().map(|(w, &pi)| {
+            let kw = w >= np - nk;
+            (pi, if kw { Some(params[pi].0.clone()) } else { None }, arg_tys[pi].0, arg_tys[pi].1.to_string())
+        }).collect();
+        // arity edit
+        let edit = rng.below(6);
+        match edit {
+            0 => { let k = 1 + rng.below(2) as usize; for _ in 0..k.min(written.len()) { written.pop(); } }
+            1 if nk == 0 => written.push((usize::MAX, None, "int", "99".to_string())),
+            2 => written.push((usize::MAX, Some("zz".to_string()), "int", "1".to_string())),
+            _ => {}
+        }
+        if edit <= 2 { n_call_arity += 1; }
         let is_method = ci % 2 == 1;
-        let sig = params.iter().map(|(n, t)| format!("{n}: {t}")).collect::<Vec<_>>().join(", ");
+        let sig = params.iter().enumerate().map(|(i, (n, t))| if has_default[i] { format!("{n}: {t} = {}", TYS.iter().find(|(x, _)| x == t).unwrap().1) } else { format!("{n}: {t}") }).collect::<Vec<_>>().join(", ");
         let mut src = String::from("model Pt:\n    x: int\n    y: int\n\ntrait Shape:\n    def area(self) -> int: ...\n\nclass Box with Shape:\n    w: int\n    h: int\n\n    def area(self) -> int:\n        return self.w * self.h\n\nclass Sq extends Box:\n    s: int\n\nclass Cat:\n    n: int\n\n");
         src.push_str(&format!("def callee({sig}) -> int:\n    return 0\n\nclass Host:\n    v: int\n\n    def meth(self, {sig}) -> int:\n        return 0\n\ndef main() -> None:\n    h = Host(v=1)\n"));
         let mut line = String::from(if is_method { "    r = h.meth(" } else { "    r = callee(" });
         let line_start = src.len();
         let mut spans: Vec<(usize, usize)> = Vec::new(); // per written argument: span of its value
         let mut enc_args: Vec<String> = Vec::new();
-        for (w, &pi) in order.iter().enumerate() {
+        for (w, (_, kw, ty, text)) in written.iter().enumerate() {
             if w > 0 { line.push_str(", "); }
-            let kw = w >= np - nk;
-            if kw { line.push_str(&format!("{}=", params[pi].0)); }
+            if let Some(k) = kw { line.push_str(&format!("{k}=")); }
             let a = line_start + line.len();
-            line.push_str(arg_tys[pi].1);
+            line.push_str(text);
             spans.push((a, line_start + line.len()));
-            enc_args.push(if kw { format!("{}={}", params[pi].0, arg_tys[pi].0) } else { arg_tys[pi].0.to_string() });
+            enc_args.push(match kw { Some(k) => format!("{k}={ty}"), None => ty.to_string() });
         }
+        let call_span = (line_start, line_start + line.len() + 1);
         line.push_str(")\n");
         src.push_str(&line);
-        // Sq(s=2) lacks Box's fields in the constructor: give Sq its own complete constructor call instead
-        let src = src.replace("Sq(s=2)", "Sq(w=1, h=1, s=2)");
-        // recompute spans after the replacement (each replaced occurrence before a span start moves it by 10 bytes)
-        let grow = "Sq(w=1, h=1, s=2)".len() - "Sq(s=2)".len();
-        let mut adj: Vec<(usize, usize)> = Vec::new();
-        {
-            let mut moved = 0usize;
-            for (w, &pi) in order.iter().enumerate() {
-                let (a, e) = spans[w];
-                let is_sq = arg_tys[pi].0 == "Sq";
-                adj.push((a + moved, e + moved + if is_sq { grow } else { 0 }));
-                if is_sq { moved += grow; }
-            }
-        }
         let verdict = match catch(|| check(&src)) {
             Err(m) => format!("panic {m}"),
             Ok(Err(m)) => format!("unparsable {}", m.replace(' ', "_")),
             Ok(Ok(Ok(()))) => "accepted".to_string(),
             Ok(Ok(Err(errs))) => {
                 let mut flagged: Vec<usize> = Vec::new();
+                let mut missing: Vec<String> = Vec::new();
                 let mut other: Option<String> = None;
                 for (m, s0, _e0) in &errs {
-                    match adj.iter().position(|(a, e)| *s0 >= *a && *s0 < *e) {
-                        Some(w) if m.starts_with("Type mismatch") => { if !flagged.contains(&w) { flagged.push(w); } }
-                        _ => { if other.is_none() { other = Some(m.replace(' ', "_")); } }
+                    let at_arg = spans.iter().position(|(a, e)| *s0 >= *a && *s0 < *e);
+                    if m.starts_with("Missing argument") && *s0 >= call_span.0 && *s0 < call_span.1 {
+                        missing.extend(m.rsplit(": ").next().unwrap_or("").split(", ").map(|x| x.to_string()));
+                    } else if let (Some(w), true) = (at_arg, m.starts_with("Type mismatch") || m.starts_with("Too many arguments") || m.starts_with("Unknown keyword argument")) {
+                        if !flagged.contains(&w) { flagged.push(w); }
+                    } else if other.is_none() {
+                        other = Some(m.replace(' ', "_"));
                     }
                 }
                 flagged.sort();
                 match other {
                     Some(o) => format!("other-error {o}"),
-                    None => format!("flag {}", flagged.iter().map(|x| x.to_string()).collect::<Vec<_>>().join(",")),
+                    None => format!("flag {} missing {}", if flagged.is_empty() { "-".to_string() } else { flagged.iter().map(|x| x.to_string()).collect::<Vec<_>>().join(",") }, if missing.is_empty() { "-".to_string() } else { missing.join(",") }),
                 }
             }
         };
         if n_wrong > 0 { n_call_wrong += 1; }
-        // ground truth for the oracle: indices (in writing order) of the arguments the generator made wrong
-        let mut truth: Vec<usize> = order.iter().enumerate().filter(|(_, pi)| wrong_at.contains(pi)).map(|(w, _)| w).collect();
+        // ground truth for the oracle, from the generator's own bookkeeping (not from the model)
+        let mut truth: Vec<usize> = written.iter().enumerate().filter(|(_, (pi, _, _, _))| *pi == usize::MAX || wrong_at.contains(pi)).map(|(w, _)| w).collect();
         truth.sort();
-        out.case(&format!("c03 call {} {} {} {}", if is_method { "method" } else { "function" },
-            params.iter().map(|(n, t)| format!("{n}:{t}")).collect::<Vec<_>>().join(";"),
-            enc_args.join(";"),
-            if truth.is_empty() { "-".to_string() } else { truth.iter().map(|x| x.to_string()).collect::<Vec<_>>().join(",") }), &verdict);
+        let truth_missing: Vec<String> = (0..np).filter(|pi| !has_default[*pi] && !written.iter().any(|(q, _, _, _)| q == pi)).map(|pi| params[pi].0.clone()).collect();
+        out.case(&format!("c03 call {} {} {} {}/{}", if is_method { "method" } else { "function" },
+            params.iter().enumerate().map(|(i, (n, t))| format!("{n}:{t}{}", if has_default[i] { ":d" } else { "" })).collect::<Vec<_>>().join(";"),
+            if enc_args.is_empty() { "-".to_string() } else { enc_args.join(";") },
+            if truth.is_empty() { "-".to_string() } else { truth.iter().map(|x| x.to_string()).collect::<Vec<_>>().join(",") },
+            if truth_missing.is_empty() { "-".to_string() } else { truth_missing.join(",") }), &verdict);
     }
-    out.meta(&serde_json::json!({"scope_programs": n_scope, "match_programs": n_match, "call_programs": n_call, "call_programs_with_wrong_argument": n_call_wrong}));
+    // (f) trait adoption: a trait with @requires fields, required (bodyless) and default methods; an adopter (class,
+    // model, or class inheriting part of its members) that has a subset of them, some with another type / signature
+    let n_adopt = if tier == "thorough" { 1200 } else { 250 };
+    let f_tys = ["int", "str", "bool", "float"];
+    let sig_src = |m: &str, sig: &str, body: Option<&str>| -> String {
+        let (ps, ret) = sig.split_once('>').unwrap_or(("", "int"));
+        let params: Vec<String> = ps.split('.').filter(|x| !x.is_empty()).enumerate().map(|(i, t)| format!("a{i}: {t}")).collect();
+        let head = format!("    def {m}(self{}{}) -> {ret}:", if params.is_empty() { "" } else { ", " }, params.join(", "));
+        match body {
+            None => format!("{head} ...\n"),
+            Some(_) => format!("{head}\n        return {}\n", match ret { "int" => "0", "str" => "\"s\"", "bool" => "True", _ => "0.5" }),
+        }
+    };
+    let gen_sig = |r: &mut Rng| -> String {
+        let n = r.below(3) as usize;
+        let ps: Vec<&str> = (0..n).map(|_| *r.pick(&["int", "str"])).collect();
+        format!("{}>{}", ps.join("."), r.pick(&["int", "str", "bool"]))
+    };
+    for _ in 0..n_adopt {
+        let nreq = rng.below(3) as usize;
+        let requires: Vec<(String, &str)> = (0..nreq).map(|i| (format!("rf{i}"), *rng.pick(&f_tys))).collect();
+        let nm = 1 + rng.below(3) as usize;
+        let tmethods: Vec<(String, bool, String)> = (0..nm).map(|i| (format!("tm{i}"), rng.chance(1, 3), gen_sig(&mut rng))).collect();
+        let kind = *rng.pick(&["class", "model", "subclass"]);
+        // the adopter's members: each required one present (3/4), sometimes with another type / signature
+        let mut fields: Vec<(String, String)> = vec![("own".to_string(), "int".to_string())];
+        let mut truth: Vec<String> = Vec::new();
+        for (f, ty) in &requires {
+            if rng.chance(3, 4) {
+                if rng.chance(1, 5) {
+                    let other = *f_tys.iter().find(|t| *t != ty && !(**t == "int" && *ty == "float") && !(**t == "float" && *ty == "int")).unwrap();
+                    fields.push((f.clone(), other.to_string()));
+                    truth.push(format!("ft:{f}"));
+                } else {
+                    fields.push((f.clone(), ty.to_string()));
+                }
+            } else {
+                truth.push(format!("mf:{f}"));
+            }
+        }
+        let mut ameths: Vec<(String, String)> = vec![("own_m".to_string(), ">int".to_string())];
+        for (m, has_body, sig) in &tmethods {
+            if rng.chance(3, 4) {
+                if rng.chance(1, 4) {
+                    let (ps, ret) = sig.split_once('>').unwrap();
+                    let wrong = match rng.below(3) { 0 => format!("{ps}>{}", if ret == "int" { "str" } else { "int" }), 1 => format!("{}>{ret}", if ps.is_empty() { "int".to_string() } else { format!("{ps}.int") }), _ => format!("{}>{ret}", if ps.is_empty() { "str".to_string() } else { ps.replacen("int", "bool", 1).replacen("str", "int", 1) }) };
+                    if wrong != *sig {
+                        ameths.push((m.clone(), wrong));
+                        if !has_body { truth.push(format!("ms:{m}")); }
+                    } else {
+                        ameths.push((m.clone(), sig.clone()));
+                    }
+                } else {
+                    ameths.push((m.clone(), sig.clone()));
+                }
+            } else if !has_body {
+                truth.push(format!("mm:{m}"));
+            }
+        }
+        truth.sort();
+        // source
+        let mut src = String::new();
+        if !requires.is_empty() { src.push_str(&format!("@requires({})\n", requires.iter().map(|(f, t)| format!("{f}: {t}")).collect::<Vec<_>>().join(", "))); }
+        src.push_str("trait T:\n");
+        for (m, has_body, sig) in &tmethods { src.push_str(&sig_src(m, sig, if *has_body { Some("") } else { None })); src.push('\n'); }
+        let decl_start;
+        let member_src = |fs: &[(String, String)], ms: &[(String, String)]| -> String {
+            let mut o = String::new();
+            for (f, t) in fs { o.push_str(&format!("    {f}: {t}\n")); }
+            for (m, sig) in ms { o.push('\n'); o.push_str(&sig_src(m, sig, Some(""))); }
+            o
+        };
+        if kind == "subclass" {
+            // the parent holds every second member
+            let pf: Vec<(String, String)> = fields.iter().enumerate().filter(|(i, _)| i % 2 == 1).map(|(_, x)| x.clone()).collect();
+            let cf: Vec<(String, String)> = fields.iter().enumerate().filter(|(i, _)| i % 2 == 0).map(|(_, x)| x.clone()).collect();
+            let pm: Vec<(String, String)> = ameths.iter().enumerate().filter(|(i, _)| i % 2 == 1).map(|(_, x)| x.clone()).collect();
+            let cm: Vec<(String, String)> = ameths.iter().enumerate().filter(|(i, _)| i % 2 == 0).map(|(_, x)| x.clone()).collect();
+            src.push_str("class P:\n    pown: int\n");
+            src.push_str(&member_src(&pf, &pm));
+            src.push('\n');
+            decl_start = src.len();
+            src.push_str("class X extends P with T:\n");
+            src.push_str(&member_src(&cf, &cm));
+        } else {
+            decl_start = src.len();
+            src.push_str(&format!("{kind} X with T:\n"));
+            src.push_str(&member_src(&fields, &ameths));
+        }
+        let decl_end = src.len();
+        src.push_str("\ndef main() -> None:\n    pass\n");
+        let verdict = match catch(|| check(&src)) {
+            Err(m) => format!("panic {m}"),
+            Ok(Err(m)) => format!("unparsable {}", m.replace(' ', "_")),
+            Ok(Ok(Ok(()))) => "accepted".to_string(),
+            Ok(Ok(Err(errs))) => {
+                let mut got: Vec<String> = Vec::new();
+                let mut other: Option<String> = None;
+                let mut elsewhere = false;
+                for (m, s0, _) in &errs {
+                    let q = |k: usize| m.split('\'').nth(k).unwrap_or("").to_string();
+                    let tag = if m.starts_with("Type 'X' has no field") { Some(format!("mf:{}", q(3))) }
+                        else if m.contains("requires method") { Some(format!("mm:{}", q(3))) }
+                        else if m.contains("to match its signature") { Some(format!("ms:{}", m.split("::").nth(1).unwrap_or("").split(' ').next().unwrap_or(""))) }
+                        else if m.contains("requires field") { Some(format!("ft:{}", q(3))) }
+                        else if kind == "model" && m.starts_with("Type mismatch") && *s0 >= decl_start && *s0 < decl_end {
+                            // models report a wrongly typed @requires field with the generic mismatch text, on the
+                            // field's type annotation: the field is the one declared on that line
+                            let ls = src[..*s0].rfind('\n').map(|i| i + 1).unwrap_or(0);
+                            Some(format!("ft:{}", src[ls..*s0].trim().trim_end_matches(':').trim()))
+                        }
+                        else { None };
+                    match tag {
+                        Some(t) => { if !(*s0 >= decl_start && *s0 < decl_end) { elsewhere = true; } if !got.contains(&t) { got.push(t); } }
+                        None => if other.is_none() { other = Some(m.replace(' ', "_")); },
+                    }
+                }
+                got.sort();
+                match other {
+                    Some(o) => format!("other-error {o}"),
+                    None => format!("{}{}", got.join(","), if elsewhere { " elsewhere" } else { "" }),
+                }
+            }
+        };
+        let enc = |v: &[(String, String)]| if v.is_empty() { "-".to_string() } else { v.iter().map(|(a, b)| format!("{a}:{b}")).collect::<Vec<_>>().join(",") };
+        out.case(&format!("c03 adopt {kind} {} {} {} {} {}",
+            if requires.is_empty() { "-".to_string() } else { requires.iter().map(|(f, t)| format!("{f}:{t}")).collect::<Vec<_>>().join(",") },
+            tmethods.iter().map(|(m, b, sg)| format!("{m}:{}:{sg}", if *b { "d" } else { "a" })).collect::<Vec<_>>().join(","),
+            enc(&fields), enc(&ameths),
+            if truth.is_empty() { "-".to_string() } else { truth.join(",") }), &verdict);
+    }
+    out.meta(&serde_json::json!({"adoption_programs": n_adopt}));
+    out.meta(&serde_json::json!({"scope_programs": n_scope, "match_programs": n_match, "call_programs": n_call, "call_programs_with_wrong_argument": n_call_wrong, "call_programs_with_arity_edit": n_call_arity}));
     out.meta(&serde_json::json!({"files": files.len(), "expr_edits": n_expr, "stmt_edits": n_stmt, "position_labels": labels}));
 }
